@@ -65,12 +65,32 @@ def term_sets(a, ids):
     return out
 
 
-def check_noop(ctx, st, S, P, atol, seed, w):
+def rebuilt_with_other_type_numbering(P):
+    """the same molecule (elements, coordinates) as a separately built object whose atom types are numbered differently
+    (type table in reverse order of first appearance, as for force-field typed or differently ordered input)"""
+    from mofun import Atoms
+    from mofun.atomic_masses import ATOMIC_MASSES
+    els = list(P.elements)
+    table = list(dict.fromkeys(reversed(els)))
+    return Atoms(atom_types=[table.index(e) for e in els], positions=np.array(P.positions, float), atom_type_elements=table,
+                 atom_type_masses=[ATOMIC_MASSES[e] for e in table], atom_type_labels=["%s_t" % e for e in table],
+                 charges=np.array(P.charges, float), groups=np.array(P.groups))
+
+
+def check_noop(ctx, st, S, P, atol, seed, w, variant=0, group=None):
     S = clone(S)
     S.charges = np.array([1000.0 + i / 64.0 for i in range(len(S))])
     ids = [float(c) for c in S.charges]
     before_terms = term_sets(S, ids)
-    obs = replcase.observe_replace(S, P, P, seed, atol=atol)
+    R = P
+    if variant == 1 and len(set(P.elements)) >= 2:
+        R = rebuilt_with_other_type_numbering(P)          # identical pattern, built separately
+        st.count("self_replacements_with_separately_built_identical_pattern")
+    elif variant == 2 and group is not None:
+        P = S[list(group)]                                  # search pattern cut from the structure itself (keeps its type table)
+        R = rebuilt_with_other_type_numbering(P) if len(set(P.elements)) >= 2 else P
+        st.count("self_replacements_with_pattern_cut_from_structure")
+    obs = replcase.observe_replace(S, P, R, seed, atol=atol)
     st.count("self_replacements")
     if obs["found"] is None:
         st.count("not_judged")
@@ -203,7 +223,8 @@ def run_case(case, ctx):
                     setattr(S, atomsgen.ARR[knd], np.array(terms, dtype=int))
                     setattr(S, "%s_types" % knd, np.array([int(x) for x in rng.integers(0, 2, len(terms))]))
                     setattr(S, "extra_%s_fields" % knd, np.full((len(terms), 0), ".", dtype=object))
-            n = check_noop(ctx, st, S, patterns.to_atoms(pat), atol, case["s"], w)
+            n = check_noop(ctx, st, S, patterns.to_atoms(pat), atol, case["s"], w, variant=(case["s"] // 3) % 3,
+                           group=built["planted"][0] if built["planted"] else None)
         else:
             B = substituted(pat, rng)
             if B is None:
@@ -246,6 +267,8 @@ def requirements(stats, tier):
         need.append("self replacements %d, restorations %d" % (stats.get("self_replacements"), stats.get("restorations_checked")))
     if stats.get("partial_two_step_histories") < (20 if tier == "quick" else 2000):
         need.append("two-step histories with a replacement fraction below 1: %d" % stats.get("partial_two_step_histories"))
+    if stats.get("self_replacements_with_separately_built_identical_pattern") < 10 or stats.get("self_replacements_with_pattern_cut_from_structure") < 10:
+        need.append("identical patterns built separately / cut from the structure: %d / %d" % (stats.get("self_replacements_with_separately_built_identical_pattern"), stats.get("self_replacements_with_pattern_cut_from_structure")))
     if stats.get("term_sets_compared") < 200:
         need.append("term sets compared only %d times" % stats.get("term_sets_compared"))
     if stats.nseen("real_self") < 5 or stats.nseen("real_site") < 5:
